@@ -113,6 +113,8 @@ def vpd_formats():
                  "association": d["association"], "designator_length": len(body), "designator": dict(d["designator"])}
             if d["piv"] and d["association"] in (1, 2):
                 e["protocol_identifier"] = d["protocol_identifier"]
+            else:
+                e["protocol_identifier"] = "$absent"  # reserved unless PIV=1 and the association is a target port/device
             ds.append(e)
         return vpd_expect(v, 0x83, {"designator_descriptors": ds})
     out.append(Format("vpd_83", s, lambda v: R.vpd_device_identification(v["descs"], pq=v["pq"], pdt=v["pdt"]), exp83, I(),
@@ -290,7 +292,7 @@ def smc_formats():
         first, num, pages = t
         return {"first_element_address": first, "num_elements": num,
                 "element_status_pages": [{"element_type": p["element_type"], "pvoltag": p["pvoltag"], "avoltag": p["avoltag"],
-                                          "element_descriptors": [dict(e) for e in p["elements"]]} for p in pages]}
+                                          "element_descriptors": [dict(e, **{"$exact": True}) for e in p["elements"]]} for p in pages]}
     return [Format("readelementstatus", s, lambda t: R.element_status(t[0], t[1], t[2]), exp,
                    dec("scsi_cdb_readelementstatus", "ReadElementStatus"),
                    lambda t: sum(len(p["elements"]) for p in t[2]), cmd="readelementstatus")]
@@ -411,7 +413,17 @@ def compare(got, want, path=""):
             return compare(list(got.values())[0], want["$anykey"], path + ".*")
         if not isinstance(got, dict):
             return (path, "type", type(got).__name__, "dict")
+        if want.get("$exact"):
+            extra = sorted(set(got) - set(want))
+            if extra:
+                return (path + "." + extra[0], "unexpected_key", _s(got[extra[0]]), None)
         for k, w in want.items():
+            if k == "$exact":
+                continue
+            if isinstance(w, str) and w == "$absent":
+                if k in got:
+                    return (path + "." + k, "unexpected_key", _s(got[k]), None)
+                continue
             if k not in got:
                 return (path + "." + k, "missing", None, _s(w))
             d = compare(got[k], w, path + "." + k)
